@@ -942,8 +942,14 @@ class RetrySender(object):
         self.pkt_type = pkt_type
         self.payload = payload
         self.callback = callback
+        self.done = False
 
     def __call__(self, success):
+        # the message may have been sent in more than one datagram, each
+        # one reports to this functor. only the first ack counts.
+        if self.done:
+            return
+
         # keep re-trying until it succeeds
         if not success:
 
@@ -952,8 +958,26 @@ class RetrySender(object):
 
             self.conn.outgoing_messages.append(msg)
 
-        elif self.callback:
-            self.callback(True)
+        else:
+            self.done = True
+            if self.callback:
+                self.callback(True)
+
+class OnceCallback(object):
+    """ functor which runs a callback for the first result only
+
+    A message sent with RetryMode.BEST_EFFORT can be included in more than
+    one datagram. Every one of those datagrams is acked or times out.
+    """
+    def __init__(self, callback):
+        super(OnceCallback, self).__init__()
+        self.callback = callback
+        self.done = False
+
+    def __call__(self, success):
+        if not self.done:
+            self.done = True
+            self.callback(success)
 
 class Bytes(bytes):
     seq = SeqNum()
@@ -1099,6 +1123,8 @@ class ConnectionBase(object):
 
         if retry == RetryMode.RETRY_ON_TIMEOUT:
             callback = RetrySender(self, self.seq_message, pkt_type, payload, callback)
+        elif retry == RetryMode.BEST_EFFORT and callback is not None:
+            callback = OnceCallback(callback)
 
         msg = PendingMessage(self.seq_message, pkt_type, payload, callback, retry)
 
